@@ -856,7 +856,7 @@ func (c *SpecCtx) callPure(fn *ssa.Function, recv *specVar, args []ast.Expr, sn 
 		_ = t
 		vals = append(vals, v)
 	}
-	res := e.inlineCall(c.st, fn, vals, true)
+	res := e.inlineCall(c.st, fn, vals, true, false)
 	sig := fn.Signature.Results()
 	if sig.Len() == 1 {
 		return res[0], sig.At(0).Type()
